@@ -17,7 +17,9 @@ from . import core, overlay
 SPECS = os.path.join(core.VERIF, "specs")
 UNITS_DIR = os.path.join(SPECS, "units")
 VERUS_SPECS = os.path.join(SPECS, "verus")
-EVIDENCE = os.path.join(core.VERIF, "evidence")
+# VERIF_EVIDENCE_DIR: used by tools/run_seeds.py so that runs against deliberately broken trees do not overwrite the evidence
+# of the unchanged tree
+EVIDENCE = os.environ.get("VERIF_EVIDENCE_DIR") or os.path.join(core.VERIF, "evidence")
 REPLAYS = os.path.join(core.VERIF, "replays")
 KNOWN = os.path.join(core.VERIF, "known_findings.json")
 
